@@ -1,0 +1,182 @@
+//! Verification hooks. Only compiled with `--cfg cicada_verif`.
+//!
+//! Nothing in here changes what cicada does unless a harness installs a
+//! source/interceptor or one of the `CICADA_VERIF_*` environment variables
+//! is set.
+#![allow(dead_code, unused_imports)]
+
+use std::cell::RefCell;
+use std::io::Write;
+use std::sync::atomic::{AtomicU64, Ordering};
+
+use nix::sys::wait::{WaitPidFlag, WaitStatus};
+use nix::unistd::Pid;
+
+pub use crate::core::{run_calculator, run_pipeline};
+pub use crate::execute::run_command_line;
+pub use crate::jobc::{
+    get_job_line, mark_job_as_done, mark_job_as_running, mark_job_as_stopped,
+    mark_job_member_continued, mark_job_member_stopped, try_wait_bg_jobs, wait_fg_job, waitpidx,
+};
+use crate::parsers::locust;
+pub use crate::parsers::parser_line::{
+    line_to_cmds, parse_line, tokens_to_line, tokens_to_redirections,
+};
+pub use crate::scripting::{run_lines, verif_expand_args as expand_args};
+pub use crate::shell::{do_expansion, trim_multiline_prompts, Shell};
+pub use crate::signals::{handle_sigchld, verif_maps_clear, verif_maps_dump};
+pub use crate::tools::{escape_path, extend_bangbang, is_arithmetic, wrap_sep_string};
+pub use crate::types::{
+    Command, CommandLine, CommandResult, Job, LineInfo, Redirection, Token, Tokens,
+};
+
+pub use crate::completers::escaped_word_start;
+pub use crate::completers::path::complete_path;
+pub use crate::highlight::CicadaHighlighter;
+
+// ---------------------------------------------------------------- waitpid
+
+pub type WaitSource = Box<dyn FnMut(i32, bool) -> nix::Result<WaitStatus>>;
+
+thread_local! {
+    static WAIT_SRC: RefCell<Option<WaitSource>> = RefCell::new(None);
+}
+
+/// Install (or remove) a source of child status changes. While one is
+/// installed `jobc::waitpidx` and `signals::handle_sigchld` get their
+/// statuses from it instead of from the kernel.
+pub fn set_wait_source(f: Option<WaitSource>) {
+    WAIT_SRC.with(|s| *s.borrow_mut() = f);
+}
+
+fn trace_status(r: &nix::Result<WaitStatus>, nohang: bool) {
+    let path = match std::env::var("CICADA_VERIF_TRACE") {
+        Ok(x) => x,
+        Err(_) => return,
+    };
+    let line = match r {
+        Ok(WaitStatus::Exited(p, c)) => format!("exited {} {}", p, c),
+        Ok(WaitStatus::Signaled(p, s, _)) => format!("signaled {} {}", p, *s as i32),
+        Ok(WaitStatus::Stopped(p, s)) => format!("stopped {} {}", p, *s as i32),
+        Ok(WaitStatus::Continued(p)) => format!("continued {} 0", p),
+        Ok(WaitStatus::StillAlive) => "stillalive 0 0".to_string(),
+        Ok(_) => "other 0 0".to_string(),
+        Err(e) => format!("error 0 {}", *e as i32),
+    };
+    if let Ok(mut f) = std::fs::OpenOptions::new().append(true).create(true).open(path) {
+        let _ = writeln!(f, "{} {} {}", unsafe { libc::getpid() }, line, nohang as i32);
+    }
+}
+
+/// Drop-in for `nix::sys::wait::waitpid`.
+pub fn waitpid<P: Into<Option<Pid>>>(
+    pid: P,
+    options: Option<WaitPidFlag>,
+) -> nix::Result<WaitStatus> {
+    let pid = pid.into();
+    let nohang = options.map_or(false, |o| o.contains(WaitPidFlag::WNOHANG));
+    let injected = WAIT_SRC.with(|s| s.borrow().is_some());
+    if injected {
+        let raw = pid.map_or(-1, |p| p.as_raw());
+        return WAIT_SRC.with(|s| {
+            let mut b = s.borrow_mut();
+            (b.as_mut().unwrap())(raw, nohang)
+        });
+    }
+    let r = nix::sys::wait::waitpid(pid, options);
+    trace_status(&r, nohang);
+    r
+}
+
+// ---------------------------------------------------------- exec intercept
+
+pub type ExecHook = Box<dyn FnMut(&CommandLine, bool) -> Option<CommandResult>>;
+
+thread_local! {
+    static EXEC_HOOK: RefCell<Option<ExecHook>> = RefCell::new(None);
+}
+
+pub fn set_exec_hook(f: Option<ExecHook>) {
+    EXEC_HOOK.with(|s| *s.borrow_mut() = f);
+}
+
+/// Called by `run_pipeline` right before it would create pipes and fork.
+pub fn exec_intercept(cl: &CommandLine, capture: bool) -> Option<CommandResult> {
+    let has = EXEC_HOOK.with(|s| s.borrow().is_some());
+    if !has {
+        return None;
+    }
+    EXEC_HOOK.with(|s| {
+        let mut b = s.borrow_mut();
+        (b.as_mut().unwrap())(cl, capture)
+    })
+}
+
+// ------------------------------------------------------------ step budget
+
+static STEPS: AtomicU64 = AtomicU64::new(0);
+// u64::MAX: not initialised yet; 0: unlimited
+static BUDGET: AtomicU64 = AtomicU64::new(u64::MAX);
+
+pub fn set_step_budget(n: u64) {
+    BUDGET.store(n, Ordering::Relaxed);
+}
+
+fn budget() -> u64 {
+    let b = BUDGET.load(Ordering::Relaxed);
+    if b != u64::MAX {
+        return b;
+    }
+    let v = std::env::var("CICADA_VERIF_STEP_BUDGET")
+        .ok()
+        .and_then(|x| x.parse::<u64>().ok())
+        .unwrap_or(0);
+    BUDGET.store(v, Ordering::Relaxed);
+    v
+}
+
+pub fn tick_reset() {
+    STEPS.store(0, Ordering::Relaxed);
+}
+
+/// Count one iteration of a rewrite-until-fixpoint loop.
+pub fn tick(site: &'static str) {
+    let b = budget();
+    if b == 0 {
+        return;
+    }
+    let n = STEPS.fetch_add(1, Ordering::Relaxed) + 1;
+    if n > b {
+        STEPS.store(0, Ordering::Relaxed);
+        panic!("cicada_verif: step budget exceeded at {}", site);
+    }
+}
+
+// ------------------------------------------------------------ script tree
+
+fn compose(out: &mut String, pairs: pest::iterators::Pairs<locust::Rule>) {
+    for pair in pairs {
+        let rule = pair.as_rule();
+        let text = pair.as_str().trim().to_string();
+        let inner = pair.into_inner();
+        out.push_str(&format!("({:?}", rule));
+        if inner.clone().next().is_none() {
+            out.push_str(&format!(" {:?}", text));
+        } else {
+            compose(out, inner);
+        }
+        out.push(')');
+    }
+}
+
+/// Parse tree of a script text, rendered as an s-expression.
+pub fn script_tree(text: &str) -> Result<String, String> {
+    match locust::parse_lines(text) {
+        Ok(pairs) => {
+            let mut out = String::new();
+            compose(&mut out, pairs);
+            Ok(out)
+        }
+        Err(e) => Err(format!("{:?}", e)),
+    }
+}
